@@ -1551,3 +1551,17 @@ package machine
 //@   trusted interface contract of the abstract machine
 //@   assigns ghost.apiSeq
 //@   ensures rec: ghost.apiSeq == old(ghost.apiSeq) + 1
+
+// Deprecated aliases: total (C20 "no exported method ... blocks forever").
+//@ func (m *Machine) DetachHandlers(bindingId string) (err error)
+//@   props C20
+//@   assigns *
+//@ func (m *Machine) BindHandlers(handlers any, opts ...BindOpts) (id string, err error)
+//@   props C20
+//@   assigns *
+//@ func (m *Machine) HandlersDetach(bindingId string) (err error)
+//@   trusted handler registry (reflection-built bindings); only called here
+//@   assigns *
+//@ func (m *Machine) HandlersBind(handlers any, opts ...BindOpts) (id string, err error)
+//@   trusted handler registry (reflection-built bindings); only called here
+//@   assigns *
